@@ -28,7 +28,7 @@ for p in props:
         na.append({"property_id": p, "reason": "check not built yet in this revision (work in progress, see DESIGN.md)"})
 m = {
     "version": 1,
-    "setup_cmd": "/venv/bin/python -c 'import hypothesis' 2>/dev/null || /venv/bin/pip install --no-index --find-links /opt/veriftools/wheels hypothesis",
+    "setup_cmd": "(/venv/bin/python -c 'import hypothesis' 2>/dev/null || /venv/bin/pip install --no-index --find-links /opt/veriftools/wheels hypothesis) && (test -d .deps/mpmath || /venv/bin/pip install -q --no-index --find-links /opt/veriftools/wheels --target .deps mpmath || true)",
     "hooks": {
         "guard": "HDC_ALGO_VERIF",
         "enable": "no source hooks are needed: checks import /repo's working tree (editable install) and observe public entry points (py_func, __wrapped__, gufunc out=, NUMBA_BOUNDSCHECK, numba.set_num_threads, sys.settrace)",
